@@ -319,6 +319,29 @@ fn c20_cands(rng: &mut crate::rng::Rng, _pre: &crate::snapshot::Snap, _t: Tier) 
         let s: String = (0..4).map(|_| char::from_u32(rng.range(0x20, 0xff)).unwrap()).filter(|c| !('\u{7f}'..='\u{9f}').contains(c)).collect();
         v.push(Cand { ops: vec![Op::Api(DefineCharset(code.into(), mode.into())), Op::Api(if rng.bool() { ShiftOut } else { ShiftIn }), Op::Api(Draw(s))] });
     }
+    // long strings in ONE draw() call (only the API can do that): all-ASCII including the C0
+    // range, all below 256, and mixed with a character above 255 - whatever a bulk path keys on
+    // (length, is_ascii, "printable"), each character still goes through the table in use
+    for _ in 0..4 {
+        let code = *rng.pick(&["B", "0", "U", "V"]);
+        let mode = *rng.pick(&["(", ")"]);
+        let n = *rng.pick(&[15usize, 16, 17, 31, 32, 33, 48]);
+        let kind = rng.below(3);
+        let s: String = (0..n)
+            .map(|i| match kind {
+                0 => char::from_u32(rng.range(0x01, 0x7f)).unwrap(),
+                1 => char::from_u32(rng.range(0x01, 0xff)).unwrap(),
+                _ => {
+                    if i == n / 2 {
+                        '\u{2502}'
+                    } else {
+                        char::from_u32(rng.range(0x01, 0xff)).unwrap()
+                    }
+                }
+            })
+            .collect();
+        v.push(Cand { ops: vec![Op::Api(DefineCharset(code.into(), mode.into())), Op::Api(if mode == ")" { ShiftOut } else { ShiftIn }), Op::Api(Draw(s))] });
+    }
     v
 }
 
